@@ -426,6 +426,8 @@ pub struct PoolCfg {
     /// connection double: poll_ready ignores closed / upgraded
     pub lax_ready: bool,
     pub cap: bool,
+    /// `ConnectionPoolService::without_pool`: every checkout is detached
+    pub no_pool: bool,
     pub max_idle: usize,
     /// 0 = None, 1 = Some(0), 2 = small (40 ms), 3 = large (100 s)
     pub idle_timeout: u8,
@@ -475,6 +477,7 @@ impl Sim {
             VExec(world.clone()),
             c,
         );
+        let svc = if cfg.no_pool { svc.without_pool() } else { svc };
         // origin classes by UriKey equality
         let keys: Vec<UriKey> = uris.iter().map(|u| UriKey::try_from(u.parse::<http::Uri>().unwrap()).unwrap()).collect();
         let mut class = Vec::new();
